@@ -3,7 +3,8 @@
 # (in a scratch worktree, /repo untouched) and record the verdict in seeded/<name>/meta.json.
 set -u
 export GOFLAGS=-mod=mod GOPROXY=off GOSUMDB=off GOTOOLCHAIN=local
-cd /verif
+ROOT=${SEEDMATRIX_ROOT:-/verif}   # a snapshot of /verif may run the matrix (vp run): results land in its seeded/*/meta.json
+cd $ROOT
 SEEDS=${@:-$(ls seeded)}
 WT=/tmp/seedmatrix-wt.$$; OUT=/tmp/seedmatrix-out.$$   # per invocation: two matrices may run side by side
 git -C /repo worktree remove --force $WT 2>/dev/null; rm -rf $OUT; mkdir -p $OUT
@@ -14,14 +15,14 @@ for s in $SEEDS; do
   prop=$(python3 -c "import json;print(json.load(open('seeded/$s/meta.json'))['property'])")
   if grep -q obsolete_since seeded/$s/meta.json; then echo "$s: obsolete (see meta.json)"; continue; fi
   git -C $WT checkout -q -- . ; git -C $WT clean -fdq
-  if ! git -C $WT apply /verif/seeded/$s/patch.diff 2>/dev/null; then echo "$s: patch does not apply to HEAD"; continue; fi
+  if ! git -C $WT apply $ROOT/seeded/$s/patch.diff 2>/dev/null; then echo "$s: patch does not apply to HEAD"; continue; fi
   VERIF_REPO=$WT VERIF_BUILD=$OUT/build VERIF_OUT=$OUT ./check $prop quick > $OUT/$s.log 2>&1; rc=$?
   first=$(grep -m1 -A2 '^VIOLATION' $OUT/$s.log | tail -1 | cut -c1-220)
   echo "$s: check $prop exit=$rc  $first"
-  python3 - "$s" "$prop" "$rc" "$first" <<'PY'
+  python3 - "$s" "$prop" "$rc" "$first" "$ROOT" <<'PY'
 import json,sys
-s,prop,rc,first=sys.argv[1:5]
-p=f'/verif/seeded/{s}/meta.json'
+s,prop,rc,first,root=sys.argv[1:6]
+p=f'{root}/seeded/{s}/meta.json'
 m=json.load(open(p))
 m['detected_by']=[prop] if rc=='1' else []
 m['check_result']={'check':prop,'tier':'quick','exit':int(rc),'first_violation':first}
